@@ -37,6 +37,8 @@ pub fn gen(o: &Opts, sink: &mut dyn FnMut(Vec<i64>, String)) {
         for i in 0..=cuts.len() { if rng.chance(1, 3) { sigs.push(i as i64); } }
         // one case in eight: a burst of 17..40 signals after one of the writes (queue overrun mid-stream)
         if rng.chance(1, 8) && !cuts.is_empty() { let at = rng.below(cuts.len() as u64) as i64; for _ in 0..(17 + rng.below(24)) { sigs.push(at); } }
+        // one case in 150: the peer stalls for 1.2 s between two of the writes
+        if rng.chance(1, 150) && !cuts.is_empty() { sigs.push(1000 + rng.below(cuts.len() as u64) as i64); }
         let endmode = rng.below(3) as i64;
         sink(script_case(false, &frames, None, &cuts, &sigs, endmode), String::new());
     }
